@@ -95,6 +95,68 @@ func loopRule(body *ast.BlockStmt) (stmts []string, kinds []string) {
 	return
 }
 
+// cellRule lists what the function made for a literal or a wrapper (the reflect.MakeFunc callback) does to the cells of
+// its per-call frame: plain stores into a slot (`d[i] = …`, `fr.data[i] = …` — the slot is REBOUND to the given value) and
+// writes through a slot (`d[i].Set(…)`). Every cell is fresh for the call iff every plain store is `reflect.New(t).Elem()`.
+func cellRule(cb *ast.FuncLit) (inits, sets []string, fresh bool) {
+	seenI, seenS := map[string]bool{}, map[string]bool{}
+	fresh = true
+	isSlot := func(e ast.Expr) bool {
+		ix, ok := e.(*ast.IndexExpr)
+		if !ok {
+			return false
+		}
+		t := exprString(ix.X)
+		return t == "d" || strings.HasSuffix(t, ".data")
+	}
+	ast.Inspect(cb.Body, func(nd ast.Node) bool {
+		switch x := nd.(type) {
+		case *ast.AssignStmt:
+			for k, l := range x.Lhs {
+				if isSlot(l) && k < len(x.Rhs) {
+					t := exprString(l) + " = " + exprString(x.Rhs[k])
+					if !seenI[t] {
+						seenI[t] = true
+						inits = append(inits, t)
+					}
+					if r := exprString(x.Rhs[k]); r != "reflect.New(t).Elem()" {
+						fresh = false
+					}
+				}
+			}
+		case *ast.ExprStmt:
+			if ce, ok := x.X.(*ast.CallExpr); ok {
+				if se, ok := ce.Fun.(*ast.SelectorExpr); ok && strings.HasPrefix(se.Sel.Name, "Set") && isSlot(se.X) {
+					t := exprString(x.X)
+					if !seenS[t] {
+						seenS[t] = true
+						sets = append(sets, t)
+					}
+				}
+			}
+		}
+		return true
+	})
+	if len(inits) == 0 {
+		fresh = false
+	}
+	sort.Strings(inits)
+	sort.Strings(sets)
+	return
+}
+
+func findCallback(nd ast.Node) *ast.FuncLit {
+	var cb *ast.FuncLit
+	ast.Inspect(nd, func(x ast.Node) bool {
+		if fl, ok := x.(*ast.FuncLit); ok && cb == nil && exprString(fl.Type) == "func(in []reflect.Value) []reflect.Value" {
+			cb = fl
+			return false
+		}
+		return true
+	})
+	return cb
+}
+
 func boolLean(b bool) string {
 	if b {
 		return "true"
@@ -119,6 +181,8 @@ func goFacts(p *pkgInfo) string {
 	getFuncClones, getFuncAncIsClone, getFuncStoreLocked, getFuncNoDefFrameWrite := false, false, false, false
 	cloneLocked, cloneCopiesData := false, false
 	callFrameLocked := false
+	wrapperCellInits, wrapperCellSets, wrapperCellsFresh := []string{un("genFunctionWrapperFor: callback")}, []string{}, false
+	getFuncCellInits, getFuncCellSets, getFuncCellsFresh := []string{un("getFunc: callback")}, []string{}, false
 	selectDoneLocked := false
 	casesPerStatement := false
 	selectCopiesCases := false
@@ -290,6 +354,9 @@ func goFacts(p *pkgInfo) string {
 					}
 					return true
 				})
+				if cb := findCallback(cl.Body); cb != nil {
+					getFuncCellInits, getFuncCellSets, getFuncCellsFresh = cellRule(cb)
+				}
 				// the function made for the literal (the reflect.MakeFunc callback) does not touch the DEFINING frame f:
 				// no statement of it mentions f (in particular no `getFrame(f, l).data[i] = …` after the call)
 				getFuncNoDefFrameWrite = false
@@ -323,6 +390,9 @@ func goFacts(p *pkgInfo) string {
 			fdw = common.FindFunc(frun, "", "genFunctionWrapper")
 		}
 		if fd := fdw; fd != nil {
+			if cb := findCallback(fd.Body); cb != nil {
+				wrapperCellInits, wrapperCellSets, wrapperCellsFresh = cellRule(cb)
+			}
 			// the receiver read from the FRAME (`rcvr(f)`) is resolved by bindRecv, a closure made outside the
 			// reflect.MakeFunc callback, which copies a value receiver; it is called when the wrapper is made
 			// (`if rcvr != nil && !late { recv = bindRecv() }`); inside the callback it is called only in the
@@ -460,13 +530,15 @@ func goFacts(p *pkgInfo) string {
 
 	var b strings.Builder
 	b.WriteString("open YaegiVerif.ConcFrames in\n/-- interp/run.go call, callBin, getFunc, genFunctionWrapper, _select; interp/interp.go frame.clone -/\ndef goFacts : GoFacts :=\n")
-	fmt.Fprintf(&b, "  { goBinArgsCopied := %s,\n    srcArgsCopied := %s,\n    frameInClosure := %s,\n    wrapperFramePerCall := %s,\n    wrapperRecvBound := %s,\n    wrapperLateRecv := %s,\n    callBinGoArgsCopied := %s,\n    callBinGoArg := %s,\n    callBinGoStmt := %s,\n    getFuncClones := %s,\n    getFuncAncIsClone := %s,\n    getFuncStoreLocked := %s,\n    getFuncNoDefFrameWrite := %s,\n    cloneLocked := %s,\n    cloneCopiesData := %s,\n    callFrameLocked := %s,\n    selectDoneLocked := %s,\n    casesPerStatement := %s,\n    selectCopiesCases := %s,\n    callArgStores := %s,\n    frameCellInits := %s,\n    goStmts := %s,\n    newFrameCalls := %s,\n    goValueArgLoop := %s,\n    goValueArgKinds := %s,\n    callBinGoArgLoop := %s,\n    callBinGoArgKinds := %s,\n    srcArgLoopHash := %s,\n    srcArgKinds := %s }\n",
+	fmt.Fprintf(&b, "  { goBinArgsCopied := %s,\n    srcArgsCopied := %s,\n    frameInClosure := %s,\n    wrapperFramePerCall := %s,\n    wrapperRecvBound := %s,\n    wrapperLateRecv := %s,\n    callBinGoArgsCopied := %s,\n    callBinGoArg := %s,\n    callBinGoStmt := %s,\n    getFuncClones := %s,\n    getFuncAncIsClone := %s,\n    getFuncStoreLocked := %s,\n    getFuncNoDefFrameWrite := %s,\n    cloneLocked := %s,\n    cloneCopiesData := %s,\n    callFrameLocked := %s,\n    selectDoneLocked := %s,\n    casesPerStatement := %s,\n    selectCopiesCases := %s,\n    callArgStores := %s,\n    frameCellInits := %s,\n    goStmts := %s,\n    newFrameCalls := %s,\n    goValueArgLoop := %s,\n    goValueArgKinds := %s,\n    callBinGoArgLoop := %s,\n    callBinGoArgKinds := %s,\n    srcArgLoopHash := %s,\n    srcArgKinds := %s,\n    wrapperCellsFresh := %s,\n    wrapperCellInits := %s,\n    wrapperCellSets := %s,\n    getFuncCellsFresh := %s,\n    getFuncCellInits := %s,\n    getFuncCellSets := %s }\n",
 		boolLean(goBinArgsCopied), boolLean(srcArgsCopied), boolLean(frameInClosure), boolLean(wrapperFramePerCall), boolLean(wrapperRecvBound), common.LeanStr(wrapperLateRecv),
 		boolLean(callBinGoArgsCopied), common.LeanStr(callBinGoArg), common.LeanStr(callBinGoStmt),
 		boolLean(getFuncClones), boolLean(getFuncAncIsClone), boolLean(getFuncStoreLocked), boolLean(getFuncNoDefFrameWrite),
 		boolLean(cloneLocked), boolLean(cloneCopiesData), boolLean(callFrameLocked), boolLean(selectDoneLocked), boolLean(casesPerStatement), boolLean(selectCopiesCases),
 		common.LeanStrList(callArgStores), common.LeanStrList(frameCellInits), common.LeanStrList(goStmts), common.LeanStrList(newFrameCalls),
 		common.LeanStrList(goValueArgLoop), common.LeanStrList(goValueArgKinds), common.LeanStrList(callBinGoArgLoop), common.LeanStrList(callBinGoArgKinds),
-		common.LeanStr(srcArgLoop[0]), common.LeanStrList(srcArgKinds))
+		common.LeanStr(srcArgLoop[0]), common.LeanStrList(srcArgKinds),
+		boolLean(wrapperCellsFresh), common.LeanStrList(wrapperCellInits), common.LeanStrList(wrapperCellSets),
+		boolLean(getFuncCellsFresh), common.LeanStrList(getFuncCellInits), common.LeanStrList(getFuncCellSets))
 	return b.String()
 }
